@@ -38,6 +38,22 @@ def pick_tree(rng, P, allow_single=True):
             return sh, sizes
 
 
+def big_piece_cases(self, rng, clauses, damages):
+    """Piece lengths of 1 / 2 / 4 MiB (the automatic choice for large payloads): a few cases each."""
+    out = []
+    M = 2 ** 20
+    for P, sizes_list in ((M, [(M + 5, 3)]), (2 * M, [(3 * M,), (2 * M + 1, 5), (M, 2 * M - 1)]), (4 * M, [(5 * M + 1,)])):
+        for sizes in sizes_list:
+            sh = "S1" if len(sizes) == 1 else "D2"
+            for v in (1, 2, 3):
+                for src in ("own", "ref"):
+                    for dmg in damages:
+                        c = self.mk(rng, P, v, src, 0, clauses, tree=(sh, sizes), route="lib")
+                        c["damage"] = [dict(d, arg=min(d["arg"], sizes[d["file"]] - 1)) for d in dmg if d["file"] < len(sizes)]
+                        out.append(c)
+    return out
+
+
 class RecheckProp(Prop):
     engine = "E3-recheck"
     runner = staticmethod(recheck.run_recheck)
@@ -131,6 +147,8 @@ class C16(RecheckProp):
             if c["tree"].get("single"):
                 c["damage"] = [d for d in c["damage"] if d["kind"] != "remove"]
             out.append(c)
+        out += big_piece_cases(self, rng, cl, [[], [{"file": 0, "kind": "flip", "arg": 2 ** 20 + 7}],
+                                               [{"file": 0, "kind": "trunc", "arg": 2 ** 21}]])
         return out
 
 
@@ -165,6 +183,8 @@ class C04(RecheckProp):
                                 c = self.mk(rng, P, v, src, 0, ["C04.lt100"], tree=(sh, sizes))
                                 c["damage"] = [{"file": f, "kind": kind, "arg": arg}]
                                 out.append(c)
+        out += big_piece_cases(self, rng, ["C04.lt100"], [[{"file": 0, "kind": "flip", "arg": 2 ** 20 + 7}],
+                                                          [{"file": 0, "kind": "trunc", "arg": 2 ** 21}]])
         return out
 
     def nontrivial(self, case):
@@ -200,6 +220,11 @@ class C05(RecheckProp):
                 for P in self.plens(tier):
                     for sizes in ((0, 1, 0), (P, 0, 1), (1, 0), (0, 0, P + 1), (P, P), (2 * P, 0, 0), (P - 1, 1, 0)):
                         trees.append((v, src, P, ({2: "D2", 3: "D3"}[len(sizes)], sizes)))
+        M = 2 ** 20
+        for v in (1, 2, 3):
+            for src in ("own", "ref"):
+                for P, tr in ((2 * M, ("S1", (3 * M,))), (2 * M, ("D2", (2 * M + 1, 5))), (M, ("D2", (M + 5, 3))), (4 * M, ("S1", (5 * M + 1,)))):
+                    trees.append((v, src, P, tr))
         for v, src, P, tree in trees:
             g += 1
             base = self.mk(rng, P, v, src, 0, ["C05.hundred", "C05.rootparent"], tree=tree, group="g%d" % g)
